@@ -428,6 +428,43 @@ def _canon_append_loop(tree: ast.AST) -> int:
     return n
 
 
+def _canon_arg_local(tree: ast.AST) -> int:
+    """Normal form: `x = <expr>` immediately followed by a statement that consists of one call taking `x` directly as an argument -
+    x bound once and read once in the function, nothing else in that call being a call itself (so the order of evaluation is the
+    same) - is presented with the expression in place of x (`item = Item(..)` / `self.history.append(item)`)."""
+    from collections import Counter
+    n = 0
+    for fn in ast.walk(tree):
+        if not isinstance(fn, (ast.FunctionDef, ast.AsyncFunctionDef)):
+            continue
+        loads = Counter(x.id for x in ast.walk(fn) if isinstance(x, ast.Name) and isinstance(x.ctx, ast.Load))
+        stores = Counter(x.id for x in ast.walk(fn) if isinstance(x, ast.Name) and not isinstance(x.ctx, ast.Load))
+        for lst in _stmt_lists_of(fn):
+            i = 0
+            while i + 1 < len(lst):
+                a, b = lst[i], lst[i + 1]
+                tgt = a.targets[0] if isinstance(a, ast.Assign) and len(a.targets) == 1 else (
+                    a.target if isinstance(a, ast.AnnAssign) and a.value is not None else None)
+                call = b.value if isinstance(b, (ast.Expr, ast.Return, ast.Assign)) else None
+                if isinstance(tgt, ast.Name) and isinstance(call, ast.Call) and loads[tgt.id] == 1 and stores[tgt.id] == 1 \
+                        and isinstance(a.value, ast.Call) and not any(isinstance(x, (ast.Await, ast.Yield, ast.YieldFrom, ast.NamedExpr)) for x in ast.walk(a.value)):
+                    slots = [(call.args, j) for j, x in enumerate(call.args) if isinstance(x, ast.Name) and x.id == tgt.id] + \
+                            [(k, None) for k in call.keywords if isinstance(k.value, ast.Name) and k.value.id == tgt.id]
+                    others = [x for x in call.args if not (isinstance(x, ast.Name) and x.id == tgt.id)] + \
+                             [k.value for k in call.keywords if not (isinstance(k.value, ast.Name) and k.value.id == tgt.id)] + [call.func]
+                    if len(slots) == 1 and not any(isinstance(y, ast.Call) for x in others for y in ast.walk(x)):
+                        holder, j = slots[0]
+                        if j is None:
+                            holder.value = a.value
+                        else:
+                            holder[j] = a.value
+                        del lst[i]
+                        n += 1
+                        continue
+                i += 1
+    return n
+
+
 def _canon_items(tree: ast.AST) -> int:
     """Normal form: `for k in d:` whose first statement is `v = d[k]` (d a name or attribute chain, v bound nowhere else in the
     loop) is presented to the rules as `for k, v in d.items():`."""
@@ -510,7 +547,8 @@ class Index:
             self.by_path[rel] = mi
         # normal form (DESIGN section 10): private helpers no rule anchors on are spliced into their callers, then the
         # spelling-level normal forms are applied; real tree and overlays alike
-        from .normalform import inline_private_helpers
+        from .normalform import inline_private_helpers, undo_method_renames
+        self.renamed_back = undo_method_renames({mi.path: mi.tree for mi in self.modules.values()})
         self.inlined = inline_private_helpers({mi.path: mi.tree for mi in self.modules.values()})
         from .normalform import inline_new_constants
         self.inlined += inline_new_constants({mi.path: mi.tree for mi in self.modules.values()})
@@ -520,7 +558,7 @@ class Index:
             self.canonicalised += _canon_setdefault(mi.tree) + _canon_extend(mi.tree) + _canon_append_loop(mi.tree) + _canon_enumerate(mi.tree)
             self.canonicalised += _canon_items(mi.tree)  # before de-hoisting: `v = d[k]` in a key loop is the loop's value, not a hoisted chain
             self.dehoisted += dehoist_chains(mi.tree)
-            self.canonicalised += _canon_returns(mi.tree) + _canon_augassign(mi.tree) + _canon_items(mi.tree) + _canon_allany(mi.tree) + _canon_tuple_assign(mi.tree) + _canon_membership(mi.tree)
+            self.canonicalised += _canon_arg_local(mi.tree) + _canon_returns(mi.tree) + _canon_augassign(mi.tree) + _canon_items(mi.tree) + _canon_allany(mi.tree) + _canon_tuple_assign(mi.tree) + _canon_membership(mi.tree)
         for mi in self.modules.values():
             self._scan_module(mi)
         self._publish_predicates()
